@@ -3,10 +3,11 @@
 #include "core.h"
 #include "gen.h"
 #include "scen_c16.h"
-#include "scen_c17.h"
 #include "scen_c11.h"
 #include "scen_c08.h"
 #include "scen_c02.h"
+#include "scen_c17.h"
+#include "scen_persist.h"
 
 int main(int argc, char **argv) {
     if (argc < 5) { fprintf(stderr, "usage: tpmdrv Cxx seed tier trace [extra]\n"); return 2; }
@@ -25,6 +26,9 @@ int main(int argc, char **argv) {
     else if (!strcmp(prop, "C11")) scen_c11(thorough ? 300 : 30, thorough ? 200 : 80);
     else if (!strcmp(prop, "C08")) scen_c08(thorough ? 400 : 40, thorough ? 150 : 60);
     else if (!strcmp(prop, "C02")) scen_c02(thorough ? 120 : 12, thorough ? 60 : 30, thorough);
+    else if (!strcmp(prop, "C03")) scen_c03(thorough ? 150 : 14, thorough ? 80 : 40, thorough ? 35 : 12);
+    else if (!strcmp(prop, "C05")) scen_c05(thorough ? 120 : 12, thorough ? 60 : 25, thorough ? 30 : 5);
+    else if (!strcmp(prop, "C07")) scen_c07(thorough ? 200 : 20, thorough ? 40 : 20);
     else { fprintf(stderr, "no scenario for %s\n", prop); return 2; }
     TPMLIB_Terminate();
     tr("end cmds=%ld ok=%ld faults=%ld", g_n_cmds, g_n_ok, g_fault_fired);
